@@ -26,4 +26,10 @@ NoCancel == {}
 CancelB == {"B"}
 CancelAB == {"A", "B"}
 NoLimit == -1
+
+\* a power-supply caller next to a sequence (with a device-type command inside) and a single send with a device type
+CallersP == {"A", "P", "B"}
+UnitP == [c \in CallersP |-> CASE c = "A" -> <<Dapc, QryDT, Qry>> [] c = "P" -> <<Dapc, Dapc>> [] c = "B" -> <<QryDT>>]
+ModeP == [c \in CallersP |-> CASE c = "A" -> "sequence" [] c = "P" -> "power" [] c = "B" -> "send"]
+ExcAllP == [c \in CallersP |-> TRUE]
 =============================================================================
